@@ -55,10 +55,10 @@ class Unknown(Exception):
     pass
 
 
-def eval_case(body: list[ast.stmt], space: frozenset) -> frozenset:
+def eval_case(body: list[ast.stmt], space: frozenset, lhs_name: str = "lhs", rhs_name: str = "rhs") -> frozenset:
     """Abstractly evaluate the instruction construction of one `case` into the set of outcomes on which
     the produced i1 is 1."""
-    env: dict[str, object] = {"lhs": "L", "rhs": "R"}
+    env: dict[str, object] = {lhs_name: "L", rhs_name: "R"}
 
     def ev(e: ast.AST):
         if isinstance(e, ast.Name):
@@ -305,9 +305,10 @@ def check_cmp(idx: Index, rep: Report) -> None:
     cmpf = _str_list(idx, AR, "CMPF_COMPARISON_OPERATIONS")
     for q, names, space, expected in (("LowerArithCmpi.match_and_rewrite", cmpi, INT_OUT, int_expected), ("LowerArithCmpf.match_and_rewrite", cmpf, FLT_OUT, flt_expected)):
         f = idx.func(LOW, q)
-        t = unparse(f.node)
-        if "lhs, rhs = cast_operands_to_regs(rewriter, op)" not in t:
+        binds_ = [s_ for s_ in walk_local(f.node) if isinstance(s_, ast.Assign) and isinstance(s_.targets[0], ast.Tuple) and len(s_.targets[0].elts) == 2 and all(isinstance(e_, ast.Name) for e_ in s_.targets[0].elts) and isinstance(s_.value, ast.Call) and unparse(s_.value) == f"cast_operands_to_regs({f.node.args.args[2].arg}, {f.node.args.args[1].arg})"]
+        if len(binds_) != 1:
             raise AnalysisError(f"{f.fq}: operand binding not recognised")
+        ln_, rn_ = (e_.id for e_ in binds_[0].targets[0].elts)  # type: ignore[union-attr]
         cases = _cases(f.node, getattr(f.module, "assigns", {}))
         kind = "cmpi" if "Cmpi" in q else "cmpf"
         for k, mn in enumerate(names):
@@ -318,7 +319,7 @@ def check_cmp(idx: Index, rep: Report) -> None:
                 r.fail(inst, Finding("C22.R2", f.fq, f"{kind}-unimplemented:{mn}", f"predicate {k} ({mn}) is not lowered (NotImplementedError)", f.loc))
                 continue
             try:
-                got = eval_case(cases[k], space)
+                got = eval_case(cases[k], space, ln_, rn_)
             except Unknown as e:
                 raise AnalysisError(f"{f.fq}: case {k} ({mn}) uses a construction the evaluator does not know: {e}")
             want = expected(mn)
